@@ -39,8 +39,11 @@
 //!       flags, delete set). If the bytes differ, both exports are applied to fresh non-collecting
 //!       documents (which squash whatever can be squashed) and THEIR exports must be identical
 //!       (block boundaries are no part of the property: `UndoManager` splits blocks without
-//!       changing anything). After a `gc` step (a collection no follower is told about) the store
-//!       comparison is dropped for the rest of the history; content, vector, delete set and ids stay.
+//!       changing anything). Where the CONTENT of deleted blocks may legitimately differ - after a
+//!       `gc` step (a collection no follower is told about) and with an `UndoManager` on a
+//!       collecting emitter (it keeps the content of deleted blocks it may have to restore, the
+//!       followers collect them) - the two exports must at least agree after both went through a
+//!       fresh COLLECTING document (`World::contents_may_differ`).
 //!       What the emitter has merely STASHED (pending update / pending delete set) is no part of
 //!       any emitted update until it is integrated: `encode_diff_v1`, not
 //!       `encode_state_as_update_v1`, is compared, and a follower must NEVER hold anything
@@ -48,19 +51,45 @@
 //!       emitted update was integrated by the emitter, so by induction its dependencies are in
 //!       the follower.
 //!  (E2) emission count: with `changed` = (`integrated` or `ds` of the emitter differ before /
-//!       after the transaction), exactly ONE update per encoding if `changed`, NONE otherwise;
-//!       both encodings announce the same number. An `undo` / `redo` call may run several
-//!       transactions (one per popped stack item): then at most one update per popped item, at
-//!       least one if `changed`, none otherwise.
+//!       after the transaction; the state vector alone would miss blocks integrated behind a
+//!       gap), exactly ONE update per encoding if `changed`, NONE otherwise (a transaction that
+//!       only stashes, a duplicate, an empty transaction, removal of an absent key, insertion of
+//!       nothing, an explicit collection); both encodings announce the same number. An `undo` /
+//!       `redo` call may run several transactions (one per popped stack item): then at most one
+//!       update per popped item, at least one if `changed`, none otherwise.
 //!  (E3) the v1 and the v2 update of one transaction decode to the same `Update` (`==`, and equal
 //!       `encode_v1()` and `encode_v2()` re-encodings).
 //!  (E4) exactness of the emitted update against the emitter's state change (`new` =
 //!       `integrated` after minus before, `newds` = `ds` after minus before):
-//!       complete: `new` is carried; `newds` is in the update's delete set or names carried blocks;
-//!       minimal: every carried block is in `new`, EXCEPT (tolerated, see TOLERATED) ...; every id
-//!       of the update's delete set is in `newds`.
+//!       complete: `new` is carried; `newds` is in the update's delete set or names blocks the
+//!       update carries as deleted / collected (`insertions(true)` minus `insertions(false)`);
+//!       minimal: every carried block is in `new`, except the re-emission tolerated below; every
+//!       id of the update's delete set is in `newds`.
 //!
-//! See the end of the file for the enumeration (`stages`).
+//! TOLERATED (see `World::tolerated`; `search updlog_strict` reports it): a transaction that
+//! integrates a block of client `c` while `c` has a gap emits again the blocks of `c` that earlier
+//! transactions integrated behind that gap (`encode_update` writes from the transaction's
+//! before-state of `c` to the END of `c`'s block list). Over-sending, followers stay equal.
+//! HISTORY (see K-GCSPLIT before `World`): the first runs found, on the then current tree, that a
+//! receiver panicked on an update whose GC block begins with ids it lacks and continues with ids
+//! it holds - and the tolerated re-emission produces such updates. Repaired in /repo (c9ef1ac);
+//! nothing is excluded any more.
+//! NOT PART OF `updlog` (`search updlog_peek` reports it): `TransactionMut::encode_update_v1()` /
+//! `after_state()` called INSIDE an open transaction freeze the transaction's after-state
+//! (`OnceCell`); blocks of a client the transaction had not yet written for at that moment are
+//! missing from its update event, and a transaction that had written nothing yet and deletes
+//! nothing emits no event at all (`[peek, text insert]`: the follower never sees the character).
+//!
+//! ENUMERATION (`stages`): breadth first over the number of steps (iterative deepening, all stages
+//! in turn, so a witness is as short as possible), one execution per history; a history whose
+//! final state (stores, stashes, captured updates, undo stacks of all documents) was reached
+//! before in its stage is not extended again. `--universe N` = at most N+1 steps for the
+//! delivery-order stage (one author, collecting, v1), N steps for most stages, N-1 for the
+//! no-change alphabet, the multi-operation transactions and two of the nested variants.
+//! Measured on the tree of 2026-09-26 (dev profile): universe 6: about 438 700 cases, 26 s (8 jobs; 48 s under load 18);
+//! universe 7: about 1 947 500 cases, 142 s (16 jobs); nothing found. The counts of the two undo stages vary by a few cases from run to run:
+//! `UndoManager` walks a `HashSet<ItemPtr>` (hashed by address) when it restores several items,
+//! so their new clocks, hence the de-duplicated states, differ; the verdicts do not depend on it.
 
 use crate::evt::{at, fail, finish, finish_replay, guarded, Found, Hunt, Stop, Tally};
 use crate::json::J;
@@ -80,12 +109,14 @@ use yrs::{
     Subscription, Text, TextRef, Transact, TransactionMut, Update,
 };
 
-pub const TARGETS: &str = "updlog | updlog_strict | updlog_peek";
+pub const TARGETS: &str = "updlog | updlog_strict | updlog_peek | updlog_gcsplit";
 
 /// `updlog_strict` switches the tolerance of (E4) off, `updlog_peek` adds a mid-transaction
 /// `encode_update_v1()` call to the alphabet: both are diagnostic and EXPECTED to report.
+/// `updlog_gcsplit` is an alias of `updlog` (it used to switch off the exclusion of the defect
+/// K-GCSPLIT, repaired since: see HISTORY below).
 pub fn is_target(target: &str) -> bool {
-    matches!(target, "updlog" | "updlog_strict" | "updlog_peek")
+    matches!(target, "updlog" | "updlog_strict" | "updlog_peek" | "updlog_gcsplit")
 }
 
 /// Is this witness line one of ours?
@@ -699,7 +730,7 @@ fn with_txn<T>(doc: &Doc, origin: Option<&str>, f: impl FnOnce(&mut TransactionM
 
 /// One operation inside an open transaction; `Err`: the operation cannot be executed here.
 fn apply_op(rep: &mut Rep, txn: &mut TransactionMut, op: &Op) -> Result<(), String> {
-    let mut fresh_number = |rep: &mut Rep| -> i64 {
+    let fresh_number = |rep: &mut Rep| -> i64 {
         let v = rep.client as i64 * 1000 + rep.vals as i64;
         rep.vals += 1;
         v
@@ -962,13 +993,38 @@ impl Hasher for Fp {
 
 /// The export of a store after a fresh non-collecting document has applied it: block boundaries
 /// are normalised (everything that can be squashed is squashed at commit).
-fn normalised(diff: &[u8]) -> Result<Vec<u8>, String> {
+fn normalised(diff: &[u8], gc: bool) -> Result<Vec<u8>, String> {
     let u = decode1(diff)?;
-    let fresh = new_rep(9100, false, false);
+    let fresh = new_rep(9100, gc, false);
     with_txn(&fresh.doc, Some("normalise"), |txn| txn.apply_update(u)).map_err(|e| e.to_string())?;
     let txn = fresh.doc.transact();
     Ok(txn.encode_diff_v1(&StateVector::default()))
 }
+
+// ---------------------------------------------------------------------------
+// HISTORY: K-GCSPLIT (found by this target on the tree of 2026-09-26 12:40, repaired in /repo
+// since: c9ef1ac "BlockSet::exclude shortens a GC or Skip block it splits"; found again when that
+// repair is reverted)
+// ---------------------------------------------------------------------------
+//
+// `apply_update` first cuts what the receiver already holds out of the incoming update
+// (`BlockSet::exclude` -> `split_at` -> `Block::splice`). For a GC (and Skip) block
+// `Block::splice(&self, offset)` returned the RIGHT part but left the LEFT part at its full length
+// (only `Block::Item` is cut in place). A GC block `[a, b)` of which the receiver lacked the
+// beginning and held a later part (possible only when the receiver holds ids behind a gap) was
+// therefore integrated with its full length over a shorter Skip placeholder: `BlockStore::push`
+// computed `skip.next_clock() - block.next_clock()` = "attempt to subtract with overflow" (dev
+// profile; wraps in release). The update log produces such updates itself: the re-emission
+// tolerated at `World::tolerated` sends the GC block a follower holds behind a gap once more,
+// SQUASHED with the neighbouring ids the gap-filling transaction collected. Smallest history
+// (stage `several_operations_gc`): an author creates a nested map with one entry (1#0, 1#1), then
+// in ONE transaction overwrites the entry (1#2) and removes the nested map (its update carries GC
+// 1#2 and the delete set 1#0-1); the emitter receives the second update first (Skip 0..2, GC 2;
+// emitted as such, the followers hold it) and then the first one: it emits
+// `[item 1#0 (deleted), GC 1..3]`, and a follower that holds `[Skip 0..2, GC 2]` panicked in
+// `apply_update`. While the defect was open, histories that met exactly this shape were stopped
+// and counted; since the repair nothing is excluded (`updlog_gcsplit` is an alias of `updlog`;
+// the key `exclude_known_gc_split` of older witness lines is ignored).
 
 // ---------------------------------------------------------------------------
 // the world
@@ -1113,9 +1169,6 @@ impl<'a> World<'a> {
         match step {
             Step::Local { ops } => {
                 api = "Doc::transact_mut -> operations -> commit -> Doc::observe_update_v1 / observe_update_v2 callbacks".to_string();
-                if self.case.target != "updlog_peek" && ops.contains(&Op::Peek) && self.case.variant != "replay" {
-                    return Err(invalid("peek_encode_update belongs to the target updlog_peek".into()));
-                }
                 run_ops(&mut self.e, ops, step_no)?;
             }
             Step::Deliver { a, seq } => {
@@ -1193,6 +1246,17 @@ impl<'a> World<'a> {
         let v1: Vec<Vec<u8>> = std::mem::take(&mut *lock(&self.log1));
         let v2: Vec<Vec<u8>> = std::mem::take(&mut *lock(&self.log2));
         let at_step = |what: &str| J::obj(vec![("step", J::Num(step_no as i64)), ("property", J::str(what))]);
+        if std::env::var_os("VX_ULOG_TRACE").is_some() {
+            // debugging aid: what the emitter announced, what it holds
+            for b in &v1 {
+                eprintln!("step {}: emitted {:?}", step_no, decode1(b));
+            }
+            let t = self.e.doc.transact();
+            eprintln!("step {}: emitter holds {:?}", step_no, decode1(&t.encode_diff_v1(&StateVector::default())));
+            eprintln!("step {}: emitter stash {:?} pending ds {:?}", step_no, t.store().pending_update().map(|p| &p.update), t.store().pending_ds());
+            let t = self.followers[0].doc.transact();
+            eprintln!("step {}: follower held {:?}", step_no, decode1(&t.encode_diff_v1(&StateVector::default())));
+        }
 
         // the followers: each update, right away, in emission order
         let mut u1s = Vec::new();
@@ -1228,5 +1292,880 @@ impl<'a> World<'a> {
         let after = observe(&self.e)?;
         self.check_emission(step_no, &api, txns, &before, &after, (&v1, &v2), (&u1s, &u2s))?;
         self.check_followers(step_no, &api, &after)
+    }
+}
+
+// ---------------------------------------------------------------------------
+// the oracles
+// ---------------------------------------------------------------------------
+
+impl<'a> World<'a> {
+    /// (E4) TOLERATED re-emission. `TransactionMut::encode_update` writes, for every client the
+    /// transaction integrated a block of, everything from the transaction's before-state of that
+    /// client (the first gap of the client resp. the lowest clock integrated, whichever is lower)
+    /// up to the END of the client's block list. A transaction that integrates a block of client
+    /// `c` while `c` has a gap (it fills the gap, lands inside it or behind it) therefore emits
+    /// again the blocks of `c` that earlier transactions integrated behind the gap. Receivers
+    /// drop what they know, followers stay equal; it is over-sending, tolerated here in exactly
+    /// this form: an id of client `c` that was integrated before, lies at or above the emitter's
+    /// state-vector entry for `c` BEFORE the transaction (so: behind a gap), and `c` is a client
+    /// this transaction integrated something new of. `updlog_strict` reports it.
+    fn tolerated(&self, id: &(u64, u32), before: &Obs, new: &Ids) -> bool {
+        if !self.case.tolerate {
+            return false;
+        }
+        let first_gap = before.sv.iter().find(|(c, _)| *c == id.0).map(|(_, k)| *k).unwrap_or(0);
+        id.1 >= first_gap && new.iter().any(|(c, _)| *c == id.0)
+    }
+
+    #[allow(clippy::too_many_arguments)]
+    fn check_emission(
+        &self,
+        step_no: usize,
+        api: &str,
+        txns: usize,
+        before: &Obs,
+        after: &Obs,
+        raw: (&Vec<Vec<u8>>, &Vec<Vec<u8>>),
+        decoded: (&Vec<Update>, &Vec<Update>),
+    ) -> Result<(), Failure> {
+        let (v1, v2) = raw;
+        let (u1s, u2s) = decoded;
+        let new = minus(&after.integrated, &before.integrated);
+        let newds = minus(&after.ds, &before.ds);
+        let changed = !new.is_empty() || !newds.is_empty() || before.integrated != after.integrated || before.ds != after.ds;
+        let change = || {
+            J::obj(vec![
+                ("blocks_integrated_by_the_transaction", ids_json(&new)),
+                ("ids_deleted_by_the_transaction", ids_json(&newds)),
+                ("content_before", before.content.clone()),
+                ("content_after", after.content.clone()),
+                ("state_vector_before", sv_json(&before.sv)),
+                ("state_vector_after", sv_json(&after.sv)),
+            ])
+        };
+        let emitted = |extra: Vec<(&str, J)>| {
+            let mut f = vec![
+                ("v1_updates", J::Num(v1.len() as i64)),
+                ("v2_updates", J::Num(v2.len() as i64)),
+                ("v1", J::Arr(u1s.iter().map(|u| J::Str(shorten(format!("{:?}", u)))).collect())),
+            ];
+            f.extend(extra);
+            J::obj(f)
+        };
+        // (E2)
+        let expected = |what: &str| J::obj(vec![("step", J::Num(step_no as i64)), ("property", J::str(what)), ("transaction", change())]);
+        if v1.len() != v2.len() {
+            return Err(fail(
+                "the v1 and the v2 subscriber were handed a different number of updates",
+                api,
+                expected("the same number of updates in both encodings"),
+                emitted(vec![]),
+            ));
+        }
+        if !changed && !v1.is_empty() {
+            return Err(fail(
+                "a transaction that changed nothing (no block integrated, nothing deleted) emitted an update",
+                api,
+                expected("no update event"),
+                emitted(vec![]),
+            ));
+        }
+        if changed && v1.is_empty() {
+            return Err(fail(
+                "a transaction that integrated blocks or deleted something emitted no update",
+                api,
+                expected("exactly one update per encoding"),
+                emitted(vec![]),
+            ));
+        }
+        if v1.len() > txns.max(if changed { 1 } else { 0 }) {
+            return Err(fail(
+                "more updates were emitted than transactions were committed",
+                api,
+                expected(&format!("at most one update per encoding and transaction ({} transaction(s))", txns)),
+                emitted(vec![]),
+            ));
+        }
+        // (E3)
+        for (i, (a, b)) in u1s.iter().zip(u2s.iter()).enumerate() {
+            at("Update::eq / Update::encode_v1 / Update::encode_v2");
+            let same = a == b && a.encode_v1() == b.encode_v1() && a.encode_v2() == b.encode_v2();
+            if !same {
+                return Err(fail(
+                    "the v1 and the v2 update of one transaction do not decode to the same Update",
+                    api,
+                    expected("Update::decode_v1(v1 event) == Update::decode_v2(v2 event), with equal re-encodings"),
+                    J::obj(vec![
+                        ("update_number", J::Num(i as i64)),
+                        ("from_v1", J::Str(shorten(format!("{:?}", a)))),
+                        ("from_v2", J::Str(shorten(format!("{:?}", b)))),
+                        ("v1_bytes", bytes_json(&v1[i])),
+                        ("v2_bytes", bytes_json(&v2[i])),
+                    ]),
+                ));
+            }
+        }
+        // (E4)
+        let mut carried = Ids::new();
+        let mut carried_live = Ids::new();
+        let mut carried_ds = Ids::new();
+        for u in u1s.iter() {
+            carried.extend(ids_of(&u.insertions(true), "an emitted update", api)?);
+            carried_live.extend(ids_of(&u.insertions(false), "an emitted update", api)?);
+            carried_ds.extend(ids_of(u.delete_set(), "the delete set of an emitted update", api)?);
+        }
+        let lost = minus(&new, &carried);
+        if !lost.is_empty() {
+            return Err(fail(
+                "the emitted update does not carry every block the transaction integrated",
+                api,
+                expected("complete: the update carries the blocks the transaction integrated"),
+                emitted(vec![("carried", ids_json(&carried)), ("missing", ids_json(&lost))]),
+            ));
+        }
+        // (a block that travels as deleted / collected needs no entry in the delete set)
+        let lost_ds: Ids = newds
+            .iter()
+            .filter(|id| !carried_ds.contains(id) && !(carried.contains(id) && !carried_live.contains(id)))
+            .copied()
+            .collect();
+        if !lost_ds.is_empty() {
+            return Err(fail(
+                "the emitted update does not tell every deletion the transaction made",
+                api,
+                expected("complete: every id the transaction deleted is in the update's delete set (or names a block the update carries as deleted)"),
+                emitted(vec![("delete_set", ids_json(&carried_ds)), ("missing", ids_json(&lost_ds))]),
+            ));
+        }
+        let extra: Ids = carried.iter().filter(|id| !new.contains(id) && !self.tolerated(id, before, &new)).copied().collect();
+        if !extra.is_empty() {
+            return Err(fail(
+                "the emitted update carries blocks the transaction did not integrate (not minimal)",
+                api,
+                expected("minimal: every block of the update was integrated by this transaction"),
+                emitted(vec![("carried", ids_json(&carried)), ("not_integrated_by_this_transaction", ids_json(&extra))]),
+            ));
+        }
+        let extra_ds = minus(&carried_ds, &newds);
+        if !extra_ds.is_empty() {
+            return Err(fail(
+                "the delete set of the emitted update names ids the transaction did not delete (not minimal)",
+                api,
+                expected("minimal: every id of the update's delete set was deleted by this transaction"),
+                emitted(vec![("delete_set", ids_json(&carried_ds)), ("not_deleted_by_this_transaction", ids_json(&extra_ds))]),
+            ));
+        }
+        Ok(())
+    }
+
+    /// The contents of DELETED blocks need not agree between emitter and followers: after a `gc`
+    /// step (a collection no follower is told about), and when an `UndoManager` is attached to a
+    /// collecting emitter (it keeps the content of deleted blocks it may have to restore, the
+    /// followers collect them). The stores are then compared after both exports went through a
+    /// fresh COLLECTING document.
+    fn contents_may_differ(&self) -> bool {
+        self.forced_gc || (self.case.undo && self.case.gc)
+    }
+
+    /// (E1)
+    fn check_followers(&self, step_no: usize, api: &str, emitter: &Obs) -> Result<(), Failure> {
+        for (i, f) in self.followers.iter().enumerate() {
+            let stream = if i == 0 { API_STREAM_1 } else { API_STREAM_2 };
+            let name = if i == 0 { "v1" } else { "v2" };
+            let o = observe(f)?;
+            let report = |why: &str| -> Failure {
+                fail(
+                    &format!("{} (follower of the {} stream)", why, name),
+                    &format!("{} | {}", api, stream),
+                    J::obj(vec![
+                        ("step", J::Num(step_no as i64)),
+                        ("property", J::str("the follower equals the emitter after every transaction")),
+                        ("emitter", emitter.json()),
+                    ]),
+                    J::obj(vec![("follower", o.json())]),
+                )
+            };
+            if o.pending || o.pending_ds || o.has_missing {
+                return Err(report("a follower that applied every emitted update in order holds pending content"));
+            }
+            if o.content != emitter.content {
+                return Err(report("the content of a follower differs from the emitter's"));
+            }
+            if o.sv != emitter.sv {
+                return Err(report("the state vector of a follower differs from the emitter's"));
+            }
+            if o.ds != emitter.ds {
+                return Err(report("the delete set of a follower differs from the emitter's"));
+            }
+            if o.integrated != emitter.integrated {
+                return Err(report("a follower does not hold the same blocks as the emitter"));
+            }
+            if o.diff != emitter.diff {
+                // block boundaries are no part of the property
+                let (a, b) = (normalised(&emitter.diff, false), normalised(&o.diff, false));
+                let mut same = a.is_ok() && a == b;
+                if !same && self.contents_may_differ() {
+                    // the emitter may hold the content of deleted blocks the followers have
+                    // collected (or the other way round): compare what is left after collection
+                    let (a, b) = (normalised(&emitter.diff, true), normalised(&o.diff, true));
+                    same = a.is_ok() && a == b;
+                }
+                if !same {
+                    let show = |d: &[u8]| match decode1(d) {
+                        Ok(u) => J::Str(shorten(format!("{:?}", u))),
+                        Err(e) => J::Str(e),
+                    };
+                    return Err(fail(
+                        &format!("the store of a follower differs from the emitter's (follower of the {} stream)", name),
+                        &format!("{} | {}", api, stream),
+                        J::obj(vec![
+                            ("step", J::Num(step_no as i64)),
+                            ("property", J::str("encode_diff_v1(&empty) of follower and emitter are equal (up to block boundaries)")),
+                            ("emitter", show(&emitter.diff)),
+                            ("emitter_bytes", bytes_json(&emitter.diff)),
+                        ]),
+                        J::obj(vec![("follower", show(&o.diff)), ("follower_bytes", bytes_json(&o.diff))]),
+                    ));
+                }
+            }
+        }
+        Ok(())
+    }
+}
+
+// ---------------------------------------------------------------------------
+// execution
+// ---------------------------------------------------------------------------
+
+#[derive(Clone, Debug, Default)]
+struct Lens {
+    text: u32,
+    arr: u32,
+    keys: [bool; 2],
+    nested: bool,
+    chars: u32,
+}
+
+/// What a passing run tells about the final state (needed to extend the history).
+#[derive(Clone, Debug, Default)]
+pub struct Info {
+    /// Emitter, then the authors.
+    lens: Vec<Lens>,
+    /// Captured updates per author.
+    updates: Vec<usize>,
+    can_undo: bool,
+    can_redo: bool,
+    fingerprint: u128,
+}
+
+fn lens_of(rep: &Rep) -> Lens {
+    let txn = rep.doc.transact();
+    Lens {
+        text: rep.text.len(&txn),
+        arr: rep.seq.len(&txn),
+        keys: [rep.map.get(&txn, KEYS[0]).is_some(), rep.map.get(&txn, KEYS[1]).is_some()],
+        nested: find_nested(rep, &txn).is_some(),
+        chars: rep.chars,
+    }
+}
+
+fn hash_rep(rep: &Rep, fp: &mut Fp) {
+    let txn = rep.doc.transact();
+    // the store, the stash, what the stash waits for
+    txn.encode_diff_v1(&StateVector::default()).hash(fp);
+    let store = txn.store();
+    match store.pending_update() {
+        Some(p) => {
+            p.update.encode_v1().hash(fp);
+            sv_pairs(&p.missing).hash(fp);
+        }
+        None => 0u8.hash(fp),
+    }
+    match store.pending_ds() {
+        Some(d) => d.encode_v1().hash(fp),
+        None => 0u8.hash(fp),
+    }
+    rep.chars.hash(fp);
+    rep.vals.hash(fp);
+}
+
+/// Runs the case. `thorough` (replay): all checks after every emitter transaction; otherwise
+/// (search) after the last step only - every prefix is a case of its own.
+fn execute(case: &Case, thorough: bool, need_info: bool) -> Result<Info, (usize, Failure)> {
+    let mut done = 0usize;
+    let r = guarded(|| {
+        let mut w = World::new(case)?;
+        let last = case.steps.len();
+        for (i, step) in case.steps.iter().enumerate() {
+            done = i + 1;
+            w.step(step, i + 1, thorough || i + 1 == last)?;
+        }
+        let mut info = Info::default();
+        if need_info {
+            let mut fp = Fp::new();
+            hash_rep(&w.e, &mut fp);
+            info.lens.push(lens_of(&w.e));
+            for f in &w.followers {
+                hash_rep(f, &mut fp);
+            }
+            for a in &w.authors {
+                hash_rep(&a.rep, &mut fp);
+                info.lens.push(lens_of(&a.rep));
+                info.updates.push(a.updates.len());
+                for (x, _) in &a.updates {
+                    x.hash(&mut fp);
+                }
+            }
+            w.forced_gc.hash(&mut fp);
+            if let Some(m) = &w.undo {
+                info.can_undo = m.can_undo();
+                info.can_redo = m.can_redo();
+                for stack in [m.undo_stack(), m.redo_stack()] {
+                    stack.len().hash(&mut fp);
+                    for item in stack {
+                        item.insertions().encode_v1().hash(&mut fp);
+                        item.deletions().encode_v1().hash(&mut fp);
+                    }
+                }
+            }
+            info.fingerprint = fp.value();
+        }
+        Ok(info)
+    });
+    r.map_err(|f| (done, f))
+}
+
+// ---------------------------------------------------------------------------
+// enumeration
+// ---------------------------------------------------------------------------
+
+struct Stage {
+    name: &'static str,
+    authors: usize,
+    gc: bool,
+    v2: bool,
+    undo: bool,
+    /// Local transactions of the emitter / of an author.
+    local: Vec<Vec<Op>>,
+    author: Vec<Vec<Op>>,
+    pull: bool,
+    relay: bool,
+    gc_step: bool,
+    depth: usize,
+    max_local: usize,
+    max_author: usize,
+}
+
+fn ops_valid(ops: &[Op], lens: &Lens) -> bool {
+    let mut l = lens.clone();
+    for op in ops {
+        match op {
+            Op::TIns { at, n } => {
+                match at {
+                    Pos::Start if l.text < 1 || *n == 0 => return false,
+                    Pos::Mid if l.text < 2 || *n == 0 => return false,
+                    _ => {}
+                }
+                if l.chars + n > 26 {
+                    return false;
+                }
+                l.text += n;
+                l.chars += n;
+            }
+            Op::TDel { what } => match what {
+                Span::First if l.text >= 1 => l.text -= 1,
+                Span::Last if l.text >= 2 => l.text -= 1,
+                Span::All if l.text >= 2 => l.text = 0,
+                Span::Nothing => {}
+                _ => return false,
+            },
+            Op::TFmt { span, .. } => match span {
+                Span::All if l.text >= 1 => {}
+                Span::First | Span::Last if l.text >= 2 => {}
+                Span::Nothing => {}
+                _ => return false,
+            },
+            Op::AIns { at } => {
+                if *at == Pos::Start && l.arr < 1 {
+                    return false;
+                }
+                l.arr += 1;
+            }
+            // (the removed element may be the nested type: `nested` is then stale, the run decides)
+            Op::ADel { what } => match what {
+                Span::First if l.arr >= 1 => l.arr -= 1,
+                Span::Last if l.arr >= 2 => l.arr -= 1,
+                Span::Nothing => {}
+                _ => return false,
+            },
+            Op::MSet { key } => l.keys[*key] = true,
+            Op::MDel { key } => l.keys[*key] = false,
+            Op::NNew { host, .. } => {
+                if l.nested {
+                    return false;
+                }
+                l.nested = true;
+                if *host == Host::Arr {
+                    l.arr += 1;
+                }
+            }
+            Op::NPut => {
+                if !l.nested {
+                    return false;
+                }
+            }
+            Op::NDrop => {
+                if !l.nested {
+                    return false;
+                }
+                l.nested = false;
+            }
+            Op::Peek => {}
+        }
+    }
+    true
+}
+
+impl Stage {
+    fn children(&self, steps: &[Step], info: &Info) -> Vec<Step> {
+        let mut out = Vec::new();
+        let locals = steps.iter().filter(|s| matches!(s, Step::Local { .. })).count();
+        let authored = steps.iter().filter(|s| matches!(s, Step::Author { .. })).count();
+        if authored < self.max_author {
+            for a in 0..self.authors {
+                for ops in &self.author {
+                    if ops_valid(ops, &info.lens[1 + a]) {
+                        out.push(Step::Author { a, ops: ops.clone() });
+                    }
+                }
+            }
+        }
+        if locals < self.max_local {
+            for ops in &self.local {
+                if ops_valid(ops, &info.lens[0]) {
+                    out.push(Step::Local { ops: ops.clone() });
+                }
+            }
+        }
+        for a in 0..self.authors {
+            for seq in 0..info.updates[a] {
+                out.push(Step::Deliver { a, seq });
+            }
+        }
+        for a in 0..self.authors {
+            if self.pull {
+                out.push(Step::Pull { a });
+            }
+            if self.relay {
+                out.push(Step::Relay { a });
+            }
+        }
+        if self.undo {
+            if info.can_undo {
+                out.push(Step::Undo);
+            }
+            if info.can_redo {
+                out.push(Step::Redo);
+            }
+        }
+        if self.gc_step {
+            out.push(Step::Gc);
+        }
+        out
+    }
+}
+
+fn t_end(n: u32) -> Vec<Op> {
+    vec![Op::TIns { at: Pos::End, n }]
+}
+fn one(op: Op) -> Vec<Op> {
+    vec![op]
+}
+
+fn stages(target: &str, universe: u32) -> Vec<Stage> {
+    let u = universe.clamp(1, 10) as usize;
+    let d = |less: usize| u.saturating_sub(less).max(1);
+    let mut out = Vec::new();
+    if target == "updlog_peek" {
+        // diagnostic: `encode_update_v1()` called inside the open transaction, then more edits
+        out.push(Stage {
+            name: "peek",
+            authors: 1,
+            gc: true,
+            v2: false,
+            undo: false,
+            local: vec![
+                vec![Op::Peek, Op::TIns { at: Pos::End, n: 1 }],
+                vec![Op::TIns { at: Pos::End, n: 1 }, Op::Peek],
+                vec![Op::TIns { at: Pos::End, n: 1 }, Op::Peek, Op::MSet { key: 0 }],
+                vec![Op::TIns { at: Pos::End, n: 1 }, Op::Peek, Op::TIns { at: Pos::End, n: 1 }],
+                vec![Op::TIns { at: Pos::End, n: 1 }, Op::Peek, Op::TDel { what: Span::First }],
+            ],
+            author: vec![],
+            pull: false,
+            relay: false,
+            gc_step: false,
+            depth: 2,
+            max_local: 2,
+            max_author: 0,
+        });
+        return out;
+    }
+    // 1. delivery order: one author, independent and dependent blocks, every order, duplicates
+    out.push(Stage {
+        name: "order_gc_v1",
+        authors: 1,
+        gc: true,
+        v2: false,
+        undo: false,
+        local: vec![t_end(1), one(Op::TDel { what: Span::First }), one(Op::MSet { key: 0 })],
+        author: vec![
+            t_end(1),
+            one(Op::TIns { at: Pos::Start, n: 1 }),
+            one(Op::AIns { at: Pos::End }),
+            one(Op::MSet { key: 0 }),
+            one(Op::TDel { what: Span::First }),
+        ],
+        pull: true,
+        relay: false,
+        gc_step: false,
+        depth: u + 1,
+        max_local: 2,
+        max_author: 4,
+    });
+    // 2. the same without collection, author updates in v2, with relays of the author's whole state
+    out.push(Stage {
+        name: "order_nogc_v2",
+        authors: 1,
+        gc: false,
+        v2: true,
+        undo: false,
+        local: vec![t_end(1), one(Op::ADel { what: Span::First })],
+        author: vec![
+            t_end(1),
+            one(Op::TIns { at: Pos::Mid, n: 1 }),
+            one(Op::AIns { at: Pos::End }),
+            one(Op::AIns { at: Pos::Start }),
+            one(Op::MSet { key: 0 }),
+            one(Op::MDel { key: 0 }),
+            vec![Op::TIns { at: Pos::End, n: 1 }, Op::AIns { at: Pos::End }],
+        ],
+        pull: true,
+        relay: true,
+        gc_step: false,
+        depth: d(0),
+        max_local: 1,
+        max_author: 4,
+    });
+    // 3. two authors (one client id below, one above the emitter's)
+    out.push(Stage {
+        name: "two_authors",
+        authors: 2,
+        gc: true,
+        v2: false,
+        undo: false,
+        local: vec![t_end(1)],
+        author: vec![
+            t_end(1),
+            one(Op::TIns { at: Pos::Start, n: 1 }),
+            one(Op::MSet { key: 0 }),
+            one(Op::TDel { what: Span::First }),
+            one(Op::AIns { at: Pos::End }),
+        ],
+        pull: true,
+        relay: false,
+        gc_step: false,
+        depth: d(0),
+        max_local: 1,
+        max_author: 4,
+    });
+    // 4. formatting: concurrent formatting of one range makes marks redundant, the emitter's clean-up deletes them
+    out.push(Stage {
+        name: "formatting",
+        authors: 1,
+        gc: true,
+        v2: false,
+        undo: false,
+        local: vec![
+            t_end(2),
+            one(Op::TFmt { span: Span::All, on: true }),
+            one(Op::TFmt { span: Span::First, on: true }),
+            one(Op::TFmt { span: Span::All, on: false }),
+            one(Op::TDel { what: Span::First }),
+        ],
+        author: vec![
+            t_end(2),
+            one(Op::TFmt { span: Span::All, on: true }),
+            one(Op::TFmt { span: Span::Last, on: true }),
+            one(Op::TFmt { span: Span::All, on: false }),
+            one(Op::TIns { at: Pos::Mid, n: 1 }),
+            one(Op::TDel { what: Span::Last }),
+        ],
+        pull: true,
+        relay: false,
+        gc_step: false,
+        depth: d(0),
+        max_local: 3,
+        max_author: 3,
+    });
+    out.push(Stage {
+        name: "formatting_nogc_two_authors",
+        authors: 2,
+        gc: false,
+        v2: true,
+        undo: false,
+        local: vec![t_end(2), one(Op::TFmt { span: Span::All, on: true }), one(Op::TDel { what: Span::All })],
+        author: vec![
+            t_end(2),
+            one(Op::TFmt { span: Span::All, on: true }),
+            one(Op::TFmt { span: Span::All, on: false }),
+            one(Op::TFmt { span: Span::First, on: true }),
+        ],
+        pull: true,
+        relay: false,
+        gc_step: false,
+        depth: d(0),
+        max_local: 2,
+        max_author: 3,
+    });
+    // 5. nested types: created, written into, removed while an insertion into them is in flight
+    for (name, gc, host, map, less) in [
+        ("nested_array_gc", true, Host::Arr, false, 0),
+        ("nested_map_nogc", false, Host::Map, true, 0),
+        ("nested_map_in_array_nogc", false, Host::Arr, true, 1),
+        ("nested_array_in_map_gc", true, Host::Map, false, 1),
+    ] {
+        out.push(Stage {
+            name,
+            authors: 1,
+            gc,
+            v2: !gc,
+            undo: false,
+            local: vec![one(Op::NNew { host, map }), one(Op::NPut), one(Op::NDrop), one(Op::AIns { at: Pos::End })],
+            author: vec![one(Op::NNew { host, map }), one(Op::NPut), one(Op::NDrop), one(Op::AIns { at: Pos::End })],
+            pull: true,
+            relay: false,
+            gc_step: false,
+            depth: d(less),
+            max_local: 3,
+            max_author: 3,
+        });
+    }
+    out.push(Stage {
+        name: "nested_two_authors",
+        authors: 2,
+        gc: true,
+        v2: false,
+        undo: false,
+        local: vec![one(Op::NNew { host: Host::Arr, map: false }), one(Op::NDrop)],
+        author: vec![one(Op::NPut), one(Op::NDrop)],
+        pull: true,
+        relay: false,
+        gc_step: false,
+        depth: d(0),
+        max_local: 2,
+        max_author: 3,
+    });
+    // 6. transactions that change nothing
+    out.push(Stage {
+        name: "nothing_changes",
+        authors: 1,
+        gc: true,
+        v2: false,
+        undo: false,
+        local: vec![
+            vec![],
+            one(Op::TIns { at: Pos::End, n: 0 }),
+            one(Op::TDel { what: Span::Nothing }),
+            one(Op::TFmt { span: Span::Nothing, on: true }),
+            one(Op::ADel { what: Span::Nothing }),
+            one(Op::MDel { key: 0 }),
+            one(Op::MDel { key: 1 }),
+            t_end(1),
+            one(Op::MSet { key: 0 }),
+            one(Op::AIns { at: Pos::End }),
+            vec![Op::TIns { at: Pos::End, n: 0 }, Op::MDel { key: 1 }],
+        ],
+        author: vec![one(Op::MSet { key: 0 }), one(Op::MDel { key: 0 })],
+        pull: true,
+        relay: true,
+        gc_step: false,
+        depth: d(1),
+        max_local: 4,
+        max_author: 2,
+    });
+    // 7. transactions of several operations: created and deleted in one transaction, overwritten in one transaction
+    for (name, gc) in [("several_operations_gc", true), ("several_operations_nogc", false)] {
+        let multi = vec![
+            vec![Op::TIns { at: Pos::End, n: 1 }, Op::TDel { what: Span::First }],
+            vec![Op::TIns { at: Pos::End, n: 2 }, Op::TFmt { span: Span::All, on: true }],
+            vec![Op::MSet { key: 0 }, Op::MSet { key: 0 }],
+            vec![Op::MSet { key: 0 }, Op::MDel { key: 0 }],
+            vec![Op::AIns { at: Pos::End }, Op::AIns { at: Pos::Start }, Op::ADel { what: Span::Last }],
+            vec![Op::NNew { host: Host::Arr, map: true }, Op::NPut],
+            vec![Op::NPut, Op::NDrop],
+            vec![Op::TDel { what: Span::First }, Op::TIns { at: Pos::End, n: 1 }, Op::MSet { key: 1 }],
+        ];
+        out.push(Stage {
+            name,
+            authors: 1,
+            gc,
+            v2: !gc,
+            undo: false,
+            local: multi.clone(),
+            author: multi,
+            pull: true,
+            relay: !gc,
+            gc_step: false,
+            depth: d(1),
+            max_local: 3,
+            max_author: 3,
+        });
+    }
+    // 8. undo / redo on the emitter, explicit collection
+    for (name, gc) in [("undo_gc", true), ("undo_nogc", false)] {
+        out.push(Stage {
+            name,
+            authors: 1,
+            gc,
+            v2: !gc,
+            undo: true,
+            local: vec![
+                t_end(1),
+                one(Op::TDel { what: Span::First }),
+                one(Op::MSet { key: 0 }),
+                one(Op::MDel { key: 0 }),
+                one(Op::AIns { at: Pos::End }),
+                one(Op::TFmt { span: Span::All, on: true }),
+                vec![Op::NNew { host: Host::Arr, map: false }, Op::NPut],
+                one(Op::NDrop),
+            ],
+            author: vec![
+                one(Op::TIns { at: Pos::Start, n: 1 }),
+                one(Op::TDel { what: Span::First }),
+                one(Op::MSet { key: 0 }),
+                one(Op::NPut),
+            ],
+            pull: true,
+            relay: false,
+            gc_step: !gc,
+            depth: d(0),
+            max_local: 3,
+            max_author: 2,
+        });
+    }
+    out
+}
+
+pub fn cmd_search(target: &str, universe: u32, jobs: usize, deadline: Option<Instant>) -> i32 {
+    let mut h = Hunt {
+        jobs: jobs.max(1),
+        deadline,
+        cases: 0,
+    };
+    let stages = stages(target, universe);
+    let deepest = stages.iter().map(|s| s.depth).max().unwrap_or(0);
+    let mut frontiers: Vec<Vec<(Vec<Step>, Info)>> = stages.iter().map(|_| Vec::new()).collect();
+    let mut seen: Vec<HashSet<u128>> = stages.iter().map(|_| HashSet::new()).collect();
+    let mut counts = vec![0u64; stages.len()];
+    let mut states = vec![0u64; stages.len()];
+    let mut res: Result<(), Stop> = Ok(());
+    // iterative deepening on the number of steps, all stages in turn: a witness is as short as possible
+    'deepening: for d in 0..=deepest {
+        for (si, st) in stages.iter().enumerate() {
+            if d > st.depth {
+                continue;
+            }
+            let make = |steps: Vec<Step>| Case {
+                target: target.to_string(),
+                variant: st.name.to_string(),
+                authors: st.authors,
+                gc: st.gc,
+                v2: st.v2,
+                undo: st.undo,
+                cleanup: true,
+                tolerate: target != "updlog_strict",
+                steps,
+            };
+            let last_level = d == st.depth;
+            let before = h.cases;
+            let run_one = |tally: &mut Tally, steps: Vec<Step>| -> Result<Option<(Vec<Step>, Info)>, Stop> {
+                if tally.expired() {
+                    return Err(Stop::Timeout);
+                }
+                // at the last level a history that ends with a step of an author checks nothing
+                if last_level && !steps.last().map(|s| s.on_emitter()).unwrap_or(true) {
+                    return Ok(None);
+                }
+                let case = make(steps);
+                match execute(&case, false, !last_level) {
+                    Ok(info) => {
+                        tally.cases += 1;
+                        Ok(if last_level { None } else { Some((case.steps, info)) })
+                    }
+                    Err((_, f)) if is_invalid(&f) => Ok(None),
+                    Err((done, failure)) => Err(Stop::Found(Box::new(Found {
+                        fields: case.fields(&case.steps[..done.min(case.steps.len())]),
+                        failure,
+                    }))),
+                }
+            };
+            let produced: Result<Vec<Vec<(Vec<Step>, Info)>>, Stop> = if d == 0 {
+                h.par(1, &|tally: &mut Tally, _| Ok(run_one(tally, Vec::new())?.into_iter().collect()))
+            } else {
+                let fr = &frontiers[si];
+                h.par(fr.len(), &|tally: &mut Tally, i: usize| {
+                    let (steps, info) = &fr[i];
+                    let mut kept = Vec::new();
+                    for child in st.children(steps, info) {
+                        let mut s = steps.clone();
+                        s.push(child);
+                        if let Some(k) = run_one(tally, s)? {
+                            kept.push(k);
+                        }
+                    }
+                    Ok(kept)
+                })
+            };
+            counts[si] += h.cases - before;
+            match produced {
+                Ok(lists) => {
+                    // a state reached before (same documents, same captured updates, same undo stacks) has the same futures
+                    let mut next = Vec::new();
+                    for (steps, info) in lists.into_iter().flatten() {
+                        if seen[si].insert(info.fingerprint) {
+                            next.push((steps, info));
+                        }
+                    }
+                    states[si] += next.len() as u64;
+                    frontiers[si] = next;
+                }
+                Err(stop) => {
+                    res = Err(stop);
+                    break 'deepening;
+                }
+            }
+        }
+    }
+    let per_stage: Vec<(&str, J)> = stages.iter().enumerate().map(|(si, st)| (st.name, J::Num(counts[si] as i64))).collect();
+    let extra = vec![
+        ("cases_per_stage", J::obj(per_stage)),
+        ("distinct_states_extended", J::Num(states.iter().sum::<u64>() as i64)),
+    ];
+    finish(target, universe, res, &h, extra)
+}
+
+/// `replay` of a witness of this module; `Err`: usage error (exit 2).
+pub fn cmd_replay(j: &J) -> Result<i32, String> {
+    let case = Case::from_json(j)?;
+    match execute(&case, true, true) {
+        Ok(info) => Ok(finish_replay(Ok(J::obj(vec![
+            ("all_checks_passed", J::Bool(true)),
+            ("steps", J::Num(case.steps.len() as i64)),
+            ("updates_per_author", J::Arr(info.updates.iter().map(|n| J::Num(*n as i64)).collect())),
+        ])))),
+        Err((_, f)) if is_invalid(&f) => Err(f.why),
+        Err((_, f)) => Ok(finish_replay(Err(f))),
     }
 }
